@@ -354,26 +354,53 @@ Definition prop_ok_u (u : ucase) : bool :=
    forces a schedule at the granularity of Conc.v (an add-type call can be parked between its Remove
    and its insertion) and reports, per schedule step, the actions that really ran (none, one, or both
    actions of a call that could not be parked) and what Get answers for every probe afterwards. *)
+(* A step may carry a lookup that OVERLAPS it: Get(probe p) was started first and parked between its
+   two evaluations of the key (slot located / member picked — it holds the read lock there at HEAD),
+   then the step's call was started, then the lookup was released.  Observed: the answer g; [ovl]: the
+   lookup did park (its slot is shared), so the two calls overlap in real time; [ran]: the step's call
+   completed while the lookup was parked (impossible while Get holds the read lock throughout). *)
+Definition gobs := option (Z * Z * bool * bool).     (* p, g, ovl, ran *)
+
 Record kcase := mkConc
   { kR : Z;
     kvh : list (Z * list Z);
-    ksteps : list (list act);         (* per schedule step: the actions executed, in order *)
+    ksteps : list (list act * gobs);  (* per schedule step: the actions executed, in order; the overlapping lookup *)
     kprobes : list (Z * Z);
     kgets : list (list Z) }.          (* before any step, and after each step *)
 
-Fixpoint conc_rows (t : list (Z * list Z)) (R : Z) (s : state) (steps : list (list act)) (ps : list (Z * Z))
+Fixpoint conc_rows (t : list (Z * list Z)) (R : Z) (s : state) (steps : list (list act * gobs)) (ps : list (Z * Z))
   : list (list Z) :=
   match steps with
   | [] => []
-  | acts :: steps' =>
+  | (acts, _) :: steps' =>
     let s' := fold_left (astep (vh_of t) R) acts s in
     gets_of t s' ps :: conc_rows t R s' steps' ps
+  end.
+
+(* Get is one atomic step: the overlapping lookup answers as in the state before the step's actions;
+   if the step's call did run while the lookup was parked, the state after is accepted as well (the
+   harness cannot tell on which side of it the lookup's step fell) *)
+Fixpoint conc_lookups (t : list (Z * list Z)) (R : Z) (s : state) (steps : list (list act * gobs)) (ps : list (Z * Z))
+  : bool :=
+  match steps with
+  | [] => true
+  | (acts, go) :: steps' =>
+    let s' := fold_left (astep (vh_of t) R) acts s in
+    match go with
+    | None => true
+    | Some (p, g, ovl, ran) =>
+      match nth_error ps (Z.to_nat p) with
+      | Some (hp, ihp) => (g =? gres_z (get s hp ihp)) || (ovl && ran && (g =? gres_z (get s' hp ihp)))
+      | None => false
+      end
+    end && conc_lookups t R s' steps' ps
   end.
 
 Definition model_obs_k (c : kcase) : list (list Z) :=
   gets_of (kvh c) init (kprobes c) :: conc_rows (kvh c) (kR c) init (ksteps c) (kprobes c).
 
-Definition agrees_k (c : kcase) : bool := list_eqb zs_eqb (model_obs_k c) (kgets c).
+Definition agrees_k (c : kcase) : bool :=
+  list_eqb zs_eqb (model_obs_k c) (kgets c) && conc_lookups (kvh c) (kR c) init (ksteps c) (kprobes c).
 
 (* the layered node map: Remove takes the node's layers away, every insertion adds one *)
 Definition l_act (R : Z) (m : amap) (a : act) : amap :=
@@ -382,16 +409,31 @@ Definition l_act (R : Z) (m : amap) (a : act) : amap :=
   | AInsert x r => m ++ [(nrepr x, (clamp R r, nval x))]
   end.
 
+Definition get_ok (t : list (Z * list Z)) (m : amap) (hp g : Z) : bool :=
+  member_only m g && owner_ok (vnodes t m) hp g.
+
 (* after every step: every answer is the value of a node that has a layer with >= 1 replica (so a
    node whose last action is a Remove is never returned), none iff there is no such node, and the
-   value owns the cyclic successor slot of the key among the live virtual nodes of all layers *)
+   value owns the cyclic successor slot of the key among the live virtual nodes of all layers.
+   An overlapping lookup must answer like that for a membership state its call overlaps: the one
+   before the step, or — when the calls overlap in real time — the one after.  Anything else (a value
+   that was never added, a node of neither state) is not linearisable. *)
 Fixpoint conc_ok (t : list (Z * list Z)) (R : Z) (ps : list (Z * Z)) (m : amap)
-         (steps : list (list act)) (obs : list (list Z)) : bool :=
+         (steps : list (list act * gobs)) (obs : list (list Z)) : bool :=
   match steps, obs with
   | [], [] => true
-  | acts :: steps', gs :: obs' =>
+  | (acts, go) :: steps', gs :: obs' =>
     let m' := fold_left (l_act R) acts m in
-    step_ok t false ps m' gs && conc_ok t R ps m' steps' obs'
+    step_ok t false ps m' gs &&
+    match go with
+    | None => true
+    | Some (p, g, ovl, _) =>
+      match nth_error ps (Z.to_nat p) with
+      | Some (hp, _) => get_ok t m hp g || (ovl && get_ok t m' hp g)
+      | None => false
+      end
+    end &&
+    conc_ok t R ps m' steps' obs'
   | _, _ => false
   end.
 
